@@ -114,6 +114,14 @@ class FillComputeSeq(lena_sequence.LenaSequence):
         # to do: do we check for exceptions like above
         # or skip like here?
         self._after = sequence.Sequence(*after)
+        # The inner sequences have just set the static context
+        # of their elements without the elements that have no data
+        # (like SetContext), using what nested sequences remembered.
+        # Set the context of the complete sequence again.
+        try:
+            self._set_context({})
+        except exceptions.LenaKeyError:
+            pass
 
     def fill(self, value):
         """Fill *self* with *value*.
